@@ -99,6 +99,7 @@ func genSequence(seed uint64, n int) []interface{} {
 	r := newRng(seed, "seq")
 	var seq []interface{}
 	var earlier []*Inner
+	var slices []interface{}
 	for i := 0; i < n; i++ {
 		t := zooTypes[r.intn(len(zooTypes))]
 		if t.Kind() == reflect.Map { // top-level unnamed maps lose their type (known finding of C01): keep them out of sequences
@@ -118,6 +119,22 @@ func genSequence(seed uint64, n int) []interface{} {
 			seq = append(seq, p)
 		case 2:
 			seq = append(seq, topScalar(r))
+		case 3:
+			if len(slices) > 0 && r.bool() { // a slice sent earlier on this stream, again (the same backing array)
+				seq = append(seq, slices[r.intn(len(slices))])
+				continue
+			}
+			var sl interface{}
+			switch r.intn(3) {
+			case 0:
+				sl = []int32{int32(r.intn(9)), 2, 3}
+			case 1:
+				sl = []string{"a", mkString("ascii", r.intn(4), -1, r)}
+			default:
+				sl = []*Inner{{1, "x"}, nil}
+			}
+			slices = append(slices, sl)
+			seq = append(seq, sl)
 		default:
 			v := genValue(t, seed*31+uint64(i), 12, 20)
 			if strings_HasCollide(t) {
@@ -130,7 +147,13 @@ func genSequence(seed uint64, n int) []interface{} {
 }
 func strings_HasCollide(t reflect.Type) bool { return t == reflect.TypeOf(Collide{}) }
 func topScalar(r *rng) interface{} {
-	switch r.intn(6) {
+	switch r.intn(9) {
+	case 6: // a string whose last chunk is exactly full
+		return mkString("ascii", strChunk*(1+r.intn(2)), -1, r)
+	case 7: // a byte slice whose last chunk is exactly full
+		return mkBytes(binChunk*(1+r.intn(2)), r)
+	case 8:
+		return mkString("mixed", strChunk+r.intn(3), -1, r)
 	case 0:
 		return int32(r.logInt64())
 	case 1:
